@@ -115,10 +115,18 @@ def _labels_for(rng, n, mode):
 
 
 def gen_case(rng, layout_name, *, n_tempo=None, long_bpm=False, density=None, notes=None, far=None, int_ms=None, placeholder=None, lnobj=None,
-             history=None, call=None, via_file=None, labels=None, empty_via=None, wide_bpm=None, last_measure=False, file_before=None):
+             history=None, call=None, via_file=None, labels=None, empty_via=None, wide_bpm=None, last_measure=False, file_before=None, special=None):
     """one chart + the way it is written.  Every dimension that is not forced by the caller is a mixture on `rng`."""
     lanes = columns_of(layout_name)
     notes = notes if notes is not None else (rng.choice(NOTE_SHAPES[1:]) if rng.random() < 0.22 else "both")
+    if special is None:
+        # (16) ids that are special only through an optional header / argument, as ORDINARY sample ids: ZZ (the class default of the LN end id)
+        # when the LN end id is another one / when the chart has no long notes and no LN end id at all (ln_end_channel = b"": no #LNOBJ line);
+        # 01 (the default placeholder of write()) as the id of a known sample.  (14) every object with a sample (and #WAV id) of its own
+        r = rng.random()
+        special = "zz_sample_lnobj_other" if r < 0.06 else "zz_sample_no_lnobj" if r < 0.12 else "sample_01" if r < 0.17 else "own_sample_each" if r < 0.29 else ""
+    if special == "zz_sample_no_lnobj":
+        notes = {"both": "no_holds", "no_hits": "none", "one_hold": "one_hit"}.get(notes, notes)
     int_ms = (rng.random() < 0.1 and not long_bpm) if int_ms is None else int_ms
     far = (rng.random() < 0.08) if far is None else far
     n_tempo = n_tempo if n_tempo is not None else rng.choice([1, 1, 2, 2, 3, 4, 6])
@@ -152,6 +160,10 @@ def gen_case(rng, layout_name, *, n_tempo=None, long_bpm=False, density=None, no
         lnobj = lnobj or rng.choice(["01", "01", "ZZ", "0Z", "1A"])
         if placeholder.upper() == lnobj.upper():
             placeholder = "X7" if lnobj.upper() != "X7" else "X8"
+    if special == "zz_sample_lnobj_other" and lnobj.upper() == "ZZ":
+        lnobj = rng.choice(["ZY", "0Z", "1A", "zy"])
+    if special == "zz_sample_no_lnobj":
+        lnobj = ""  # no long notes, no LN end id, no #LNOBJ line
     n_s = rng.randrange(0, 6)
     ids = set()
     while len(ids) < n_s:
@@ -162,6 +174,10 @@ def gen_case(rng, layout_name, *, n_tempo=None, long_bpm=False, density=None, no
         ids = {i.lower() for i in ids}  # ids are names: lower-case ones are as good as upper-case ones
     name = rng.choice(SAMPLE_NAMES)
     samples = {i: name.format(k=k) for k, i in enumerate(sorted(ids))}
+    forced = "ZZ" if special.startswith("zz_sample") else "01" if special == "sample_01" and lnobj.upper() != "01" else None
+    if forced:
+        samples.pop(forced.lower(), None)
+        samples[forced] = f"special {forced}.wav"
 
     objs = []  # dict(kind, col, beat (text of a Fraction | None), t, len, grid, sample)
     density = density if density is not None else rng.choice([2, 4, 8, 16])
@@ -227,6 +243,16 @@ def gen_case(rng, layout_name, *, n_tempo=None, long_bpm=False, density=None, no
                 i += 1
             else:
                 i += 1  # a chart of long notes only: the odd position out is left empty
+    if forced:
+        for o in rng.sample(objs, min(len(objs), 2)):
+            o["sample"] = samples[forced]
+    if special == "own_sample_each":
+        for k, o in enumerate(objs):
+            i = b36(rng.randrange(1, 1296)).decode()
+            while i in samples or i.lower() in samples or i == lnobj.upper():
+                i = b36(rng.randrange(1, 1296)).decode()
+            samples[i] = f"own {k} {name.format(k=k)}"
+            o["sample"] = samples[i]
     rng.shuffle(objs)
     meta = dict(title=rng.choice(TITLES), artist=rng.choice(["", "someone", "作曲者 feat. X / obj:Y"]), version=rng.choice(["", "12"]), as_bytes=rng.random() < 0.5)
     misc = {}
@@ -252,6 +278,8 @@ def gen_case(rng, layout_name, *, n_tempo=None, long_bpm=False, density=None, no
                 via_file=(rng.random() < 0.3) if via_file is None else via_file, path_kind=rng.choice(["str", "Path"]), misc=misc, num=num,
                 no_sample_default=placeholder or None, call=call, history=history, empty_via=empty_via or rng.choice(["ctor", "filter"]),
                 lnobj_set=not (lnobj == "ZZ" and rng.random() < 0.3))
+    if special:
+        case["special"] = special
     if case["via_file"]:
         case["file_before"] = file_before or rng.choice(FILE_BEFORE)
     if history in ("after_other", "edit_replaced") or case.get("file_before") == "other_chart":
@@ -538,7 +566,10 @@ def run_case(case):
     got_t = [(float(t), float(b)) for t, b in den.tempo]
     long_bpm = any(len(b.partition(".")[2]) > 3 for _, b in case["tempo"])
     # tempo values with more than 3 decimals are printed rounded by the writer: tolerated (0.0005) and observed only
-    ok, detail, dev = _cmp_timelines(got_t, want_t, TOL_MS if not long_bpm else 1.0, 5.0001e-4 if long_bpm else 1e-9)
+    # (a tempo value printed 0.0005 off moves every LATER tempo point by up to <time it is active> * 0.0005 / bpm: with tempo points 40..150
+    # measures apart that is more than the flat 1 ms; the time tolerance of this observed-only class is what the value tolerance implies)
+    tol_long = 1.0 + sum((o2 - o1) * 5.0001e-4 / b for (o1, b), (o2, _b2) in zip(want_t, want_t[1:]))
+    ok, detail, dev = _cmp_timelines(got_t, want_t, TOL_MS if not long_bpm else tol_long, 5.0001e-4 if long_bpm else 1e-9)
     if not ok:
         fails.append(("tempo_timeline", detail))
     if long_bpm:
@@ -721,6 +752,8 @@ def _edge_cases(rng):
         yield gen_case(rng, name, wide_bpm=True, n_tempo=rng.choice([2, 3, 4]), far=False)
         yield gen_case(rng, name, last_measure=True, n_tempo=rng.choice([1, 2, 3]), density=4)
         yield gen_case(rng, name, placeholder="ZZ", lnobj=rng.choice(["01", "ZY"]), density=4)
+        for sp in ("zz_sample_lnobj_other", "zz_sample_no_lnobj", "sample_01", "own_sample_each"):
+            yield gen_case(rng, name, special=sp, density=4, int_ms=False)
 
 
 def _dims(case):
@@ -763,6 +796,10 @@ def _dims(case):
         d.append("lnobj_left_at_class_default")
     if any(k != k.upper() for k in case["samples"]):
         d.append("lower_case_ids")
+    if case.get("special"):
+        d.append("special:" + case["special"])
+    if "ZZ" in case["samples"] and any(o["sample"] == case["samples"]["ZZ"] for o in case["objs"]):
+        d.append("object_with_sample_id_ZZ" + ("_no_lnobj_line" if case["lnobj"] == "" else ""))
     times = {}
     for o in case["objs"]:
         times.setdefault(o["t"], set()).add(o["col"])
@@ -793,7 +830,9 @@ def bms_write_vs_interpreter(rep):
         f"(all times doubled and tempos halved, undone by the list property setters / the stack / rate(2); every object in another lane, undone by the column setters / the stack; "
         f"without its last hit, hold and tempo point, then <list> = <list>.append(item); a different chart, then every list and field assigned anew) and written again, "
         f"8% tempo values from the ends of the range ({BPM_WIDE[0]} .. {BPM_WIDE[6]}; on-grid demanded only where the float time is within 1e-9 beat of the grid point), 10% int-typed whole-ms columns, 25% numpy scalars, 8% tempo points 40..150 measures apart; "
-        f"1 chart with {big} tempo points (one per measure line); 1/10 of the charts with > 3-decimal bpms (tempo tolerance 0.0005 there)"
+        f"1 chart with {big} tempo points (one per measure line); 1/10 of the charts with > 3-decimal bpms (tempo tolerance 0.0005 there); "
+        f"(16) ids that are special only through an optional header / argument as ordinary #WAV ids used by objects: 6% id ZZ (the class default of the LN end id) while the LN end id is another one, 6% id ZZ in a chart without long notes whose "
+        f"ln_end_channel is b'' (no #LNOBJ line at all), 5% id 01 (write()'s default placeholder) as a known sample; (14) 12% of the charts give EVERY object a sample and #WAV id of its own; each of the four also once per layout in the edge family"
     )
     rep.rule = ("a case is one chart + layout + the way write is called + what happened to the chart object / the target path before; the written bytes are interpreted with the DOCUMENTED channel table of the layout "
                 "(Writerside/topics/reamber/bms/Channel.md), not with the writer's own; non-trivial when it has >= 2 objects or >= 2 tempo points; "
